@@ -76,7 +76,7 @@ def gen_plan(rng, tier='quick', config='B', traces=None):
                 name, arr = rng.choice(traces)
                 a = rng.randrange(0, max(1, len(arr) - 4))
                 stride = rng.choice([1, 1, 2, 5, 17])
-                m = rng.randint(2, 400)
+                m = rng.choice([rng.randint(2, 12), rng.randint(9, 60), rng.randint(9, 60), rng.randint(61, 400)])
                 pts = [list(map(float, p)) for p in arr[a::stride][:m]]
                 if len(pts) < 2:
                     pts = [list(map(float, p)) for p in arr[:2]]
@@ -135,6 +135,8 @@ def gen_plan(rng, tier='quick', config='B', traces=None):
         r = rng.random()
         if r < mip_rate and n >= 3:
             R = cur[s] if len(cur[s]) > 2 else _move(rng, n, cur[s], 'refine')
+            if len(R) > 32:      # MIP costs one evaluation per interior breakpoint (and the oracle as many again)
+                R = sorted([R[0], R[-1]] + rng.sample(R[1:-1], 30))
             if len(R) > 2:
                 steps.append({'s': s, 'op': 'MIP', 'R': list(R)})
                 prev_kind = 'MIP'
